@@ -19,4 +19,10 @@ float nondet_float(void);
 /* fresh object of n elements of *p */
 #define FRESH(p, n) __CPROVER_is_fresh((p), (n) * sizeof(*(p)))
 #define IMPLIES(a, b) (!(a) || (b))
+/* vacuity guard for assertion harnesses: built with -DCANARY_HARNESS this must FAIL */
+#ifdef CANARY_HARNESS
+#define HARNESS_END __CPROVER_assert(0, "canary: end of harness reachable")
+#else
+#define HARNESS_END ((void)0)
+#endif
 #endif
